@@ -643,177 +643,205 @@ func emptyOrNullArray(v any) bool {
 	return ok && len(arr) == 0
 }
 
+// diagnoseRows explains a row difference part by part (missing, extra, duplicated rows). It
+// returns a known-finding signature only when every non-empty part is explained by one.
 func (r *runner) diagnoseRows(q Query, d rowDiff, driving []*F) string {
-	onlyMissingRows := len(d.missing) > 0 && len(d.extra) == 0 && len(d.duplicated) == 0
-	// an index with an array field holds no entry at all for a document whose array is null or
-	// empty: whatever the query, such documents cannot come out of that index
-	// (documents with several distinct elements have several entries; read without a condition on
-	// the array field and without the de-duplicating iterator they come out once per entry)
-	if len(d.extra) == 0 {
-		for _, i := range r.candidateIndexes(q) {
-			ix := r.c.Idx[i]
-			if len(ix.Fields) < 2 {
-				continue
-			}
-			all := true
-			for _, row := range d.missing {
-				some := false
-				for _, f := range ix.Fields {
-					if fd := fdef(f.F); fd.Arr && emptyOrNullArray(row[fd.selName()]) {
-						some = true
-					}
-				}
-				all = all && some
-			}
-			for _, row := range d.duplicated {
-				some := false
-				for _, f := range ix.Fields {
-					fd := fdef(f.F)
-					if arr, ok := row[fd.selName()].([]any); fd.Arr && ok {
-						distinct := map[string]bool{}
-						for _, e := range arr {
-							distinct[hx.Canon(e)] = true
-						}
-						some = some || len(distinct) > 1
-					}
-				}
-				all = all && some && q.Filter == nil
-			}
-			if all && len(d.missing) > 0 {
-				return sigCompositeArrayEmpty
-			}
-			if all && len(d.duplicated) > 0 {
-				return sigCompositeArrayDup
+	var sigs []string
+	if len(d.missing) > 0 {
+		s := r.explainMissing(q, d.missing, driving)
+		if s == "" {
+			return ""
+		}
+		sigs = append(sigs, s)
+	}
+	if len(d.extra) > 0 {
+		s := r.explainExtra(q, d.extra)
+		if s == "" {
+			return ""
+		}
+		sigs = append(sigs, s)
+	}
+	if len(d.duplicated) > 0 {
+		s := r.explainDuplicated(q, d.duplicated, driving)
+		if s == "" {
+			return ""
+		}
+		sigs = append(sigs, s)
+	}
+	if len(sigs) == 0 {
+		return ""
+	}
+	return sigs[0]
+}
+
+// indexArrayFields lists the array fields of composite candidate indexes.
+func (r *runner) compositeArrayFields(q Query) []FieldDef {
+	var out []FieldDef
+	for _, i := range r.candidateIndexes(q) {
+		ix := r.c.Idx[i]
+		if len(ix.Fields) < 2 {
+			continue
+		}
+		for _, f := range ix.Fields {
+			if fd := fdef(f.F); fd.Arr {
+				out = append(out, fd)
 			}
 		}
+	}
+	return out
+}
+
+func (r *runner) explainMissing(q Query, missing []map[string]any, driving []*F) string {
+	every := func(pred func(row map[string]any) bool) bool {
+		for _, row := range missing {
+			if !pred(row) {
+				return false
+			}
+		}
+		return true
+	}
+	// an index with an array field holds no entry at all for a document whose array is null or
+	// empty: whatever the query, such documents cannot come out of that index
+	if afs := r.compositeArrayFields(q); len(afs) > 0 && every(func(row map[string]any) bool {
+		for _, fd := range afs {
+			if emptyOrNullArray(row[fd.selName()]) {
+				return true
+			}
+		}
+		return false
+	}) {
+		return sigCompositeArrayEmpty
 	}
 	// a condition on the related document that also holds for "no related document" (_ne, _nin, ...):
 	// the join is inverted when an index exists and then starts from the related documents
-	if onlyMissingRows {
-		relLeaf := false
-		walkLeaves(q.Filter, false, func(l *F, underNot bool) {
-			relLeaf = relLeaf || (fdef(l.Field).Kind == "rel" && len(l.Path) > 0 && !underNot)
-		})
-		all := relLeaf
-		for _, row := range d.missing {
-			all = all && row["owner_id"] == nil
-		}
-		if all {
-			return sigRelNullOwner
-		}
+	relLeaf := false
+	walkLeaves(q.Filter, false, func(l *F, underNot bool) {
+		relLeaf = relLeaf || (fdef(l.Field).Kind == "rel" && len(l.Path) > 0 && !underNot)
+	})
+	if relLeaf && every(func(row map[string]any) bool { return row["owner_id"] == nil }) {
+		return sigRelNullOwner
 	}
+	chosen, hasChosen := r.chosenIndex(q)
 	// _in with null on a unique index: the null is looked up as an exact key, but entries with a
 	// null field carry the docID in the key
-	if onlyMissingRows {
-		if i, ok := r.chosenIndex(q); ok && r.c.Idx[i].Unique {
-			for _, l := range driving {
-				if l.Cmp != "_in" || l.Arr != "" {
-					continue
-				}
-				hasNull := false
-				for _, v := range l.Vals {
-					hasNull = hasNull || v == "null"
-				}
-				all := hasNull
-				for _, row := range d.missing {
-					all = all && row[leafKey(l)] == nil
-				}
-				if all {
-					return sigInNullUnique
-				}
+	if hasChosen && r.c.Idx[chosen].Unique {
+		for _, l := range driving {
+			if l.Cmp != "_in" || l.Arr != "" {
+				continue
+			}
+			hasNull := false
+			for _, v := range l.Vals {
+				hasNull = hasNull || v == "null"
+			}
+			if hasNull && every(func(row map[string]any) bool { return row[leafKey(l)] == nil }) {
+				return sigInNullUnique
 			}
 		}
 	}
-	// a condition on the index's first field below a multi-branch _or: the index fetches only the
-	// rows of that one condition, the rows of the other branches are missing
-	if len(d.missing) > 0 && len(d.extra) == 0 && len(d.duplicated) == 0 {
-		for _, l := range driving {
-			if underMultiOr(q.Filter, l, false) {
-				return sigOrBranch
+	// a condition on a field of the chosen index below a multi-branch _or: the index fetches only
+	// the rows of that one condition, the rows of the other branches are missing
+	if hasChosen {
+		inIndex := map[string]bool{}
+		for _, f := range r.c.Idx[chosen].Fields {
+			inIndex[fdef(f.F).selName()] = true
+		}
+		found := false
+		walkLeaves(q.Filter, false, func(l *F, underNot bool) {
+			if !underNot && inIndex[leafKey(l)] && underMultiOr(q.Filter, l, false) {
+				found = true
 			}
+		})
+		if found {
+			return sigOrBranch
 		}
 	}
-	if onlyMissingRows && len(driving) > 1 {
-		// several conditions on the index's first field; which one the index takes depends on map order
-		anyAll := false
-		for _, l := range driving {
-			anyAll = anyAll || l.Arr == "_all"
-		}
-		fd := fdef(driving[0].Field)
-		all := anyAll && fd.Arr
-		for _, row := range d.missing {
-			arr, ok := row[fd.selName()].([]any)
-			all = all && ok && len(arr) == 0
-		}
-		if all {
-			return sigAllEmptyArray
-		}
-	}
-	// a condition on the JSON value itself (no path) other than equality: the index matches it
-	// against every leaf at any path instead of against the root value
-	if onlyMissingRows {
-		for _, l := range driving {
-			if fdef(l.Field).Kind == "json" && len(l.Path) == 0 && l.Arr == "" && l.Cmp != "_eq" && l.Cmp != "_in" {
-				all := true
-				for _, row := range d.missing {
-					switch row["j"].(type) {
-					case map[string]any, []any:
-					default:
-						all = false
-					}
-				}
-				if all {
-					return sigJSONRootOnLeaves
-				}
-			}
-		}
-	}
-	if len(driving) != 1 {
-		return ""
-	}
-	l := driving[0]
-	fd := fdef(l.Field)
-	sel := fd.selName()
-	onlyMissing := len(d.missing) > 0 && len(d.extra) == 0 && len(d.duplicated) == 0
-	onlyDup := len(d.duplicated) > 0 && len(d.extra) == 0 && len(d.missing) == 0
-
-	// _all on an indexed array: rows with an empty array satisfy _all vacuously on the scan path
-	// but have no index entries.
-	if onlyMissing && l.Arr == "_all" {
-		all := true
-		for _, row := range d.missing {
+	for _, l := range driving {
+		fd := fdef(l.Field)
+		sel := fd.selName()
+		// _all on an indexed array: rows with an empty array satisfy _all vacuously on the scan
+		// path but have no index entries
+		if l.Arr == "_all" && every(func(row map[string]any) bool {
 			v := row[sel]
 			if fd.Kind == "json" {
 				v, _ = jsonAt(v, l.Path)
 			}
 			arr, ok := v.([]any)
-			all = all && ok && len(arr) == 0
-		}
-		if all {
+			return ok && len(arr) == 0
+		}) {
 			return sigAllEmptyArray
 		}
-	}
-	// _nlike / _nilike on an indexed string: rows whose value is null
-	if onlyMissing && (l.Cmp == "_nlike" || l.Cmp == "_nilike") && l.Arr == "" && fd.Kind != "json" {
-		all := true
-		for _, row := range d.missing {
-			all = all && row[sel] == nil
-		}
-		if all {
+		// _nlike / _nilike on an indexed string: rows whose value is null
+		if (l.Cmp == "_nlike" || l.Cmp == "_nilike") && l.Arr == "" && fd.Kind != "json" &&
+			every(func(row map[string]any) bool { return row[sel] == nil }) {
 			return sigNlikeNull
 		}
+		// a condition on the JSON value itself (no path) other than equality: the index matches it
+		// against every leaf at any path instead of against the root value
+		if fd.Kind == "json" && len(l.Path) == 0 && l.Arr == "" && l.Cmp != "_eq" && l.Cmp != "_in" &&
+			every(func(row map[string]any) bool {
+				switch row["j"].(type) {
+				case map[string]any, []any:
+					return true
+				}
+				return false
+			}) {
+			return sigJSONRootOnLeaves
+		}
 	}
+	return ""
+}
+
+// explainExtra: rows the filter excludes can only come out when the filter is not applied:
+// the inverted join (index on the related collection's field) drops the conditions that stand
+// next to the relation condition in one filter object.
+func (r *runner) explainExtra(q Query, extra []map[string]any) string {
+	relLeaf, others := false, false
+	walkLeaves(q.Filter, false, func(l *F, underNot bool) {
+		if fdef(l.Field).Kind == "rel" && len(l.Path) > 0 && !underNot {
+			relLeaf = true
+		} else {
+			others = true
+		}
+	})
+	if relLeaf && others && r.c.UIndex {
+		return sigInvertedJoinDropsConds
+	}
+	return ""
+}
+
+func (r *runner) explainDuplicated(q Query, dup []map[string]any, driving []*F) string {
 	// _in with a repeated list element: the row comes back once per repetition
-	if onlyDup && l.Cmp == "_in" {
+	for _, l := range driving {
+		if l.Cmp != "_in" {
+			continue
+		}
 		seen := map[string]bool{}
-		rep := false
 		for _, v := range l.Vals {
 			k := hx.Canon(r.resolve(v))
-			rep = rep || seen[k]
+			if seen[k] {
+				return sigInDuplicates
+			}
 			seen[k] = true
 		}
-		if rep {
-			return sigInDuplicates
+	}
+	// a composite index with an array field read without any condition (order only): one row per entry
+	if afs := r.compositeArrayFields(q); len(afs) > 0 && q.Filter == nil {
+		all := true
+		for _, row := range dup {
+			some := false
+			for _, fd := range afs {
+				if arr, ok := row[fd.selName()].([]any); ok {
+					distinct := map[string]bool{}
+					for _, e := range arr {
+						distinct[hx.Canon(e)] = true
+					}
+					some = some || len(distinct) > 1
+				}
+			}
+			all = all && some
+		}
+		if all {
+			return sigCompositeArrayDup
 		}
 	}
 	return ""
